@@ -6,7 +6,7 @@ Tie, two layers:
    transcoding chains, each compared with the extracted model;
  (wide layer) modules over the whole type algebra (lib/widegen.py) with values
    from asn_random_fill: the property evaluated on the implementation alone."""
-import sys, os, re
+import sys, os, re, time
 sys.path.insert(0, os.path.join(os.path.dirname(os.path.abspath(__file__)), "..", "lib"))
 from vlib import *
 from modcorpus import *
@@ -14,6 +14,7 @@ from concurrent.futures import ThreadPoolExecutor
 import c02 as C02
 
 SYNS = ["der", "cper", "coer", "xer", "cxer"]
+TIMES = {}
 # The wide layer: lib/widefind.py = AST-returning generator over the wide algebra + the classifier of the known
 # defects met there (triage: notes/design/C01-wide.md); harness/moddrv_wide.inc = its driver commands.
 import widefind
@@ -160,7 +161,7 @@ def wide_layer(run, wmods, wrng, tier):
             run.violation("build:module", {"what": "the hand-made boundary module of the wide layer was rejected or its code does not compile", "module": m["text"],
                                            "asn1c_out": (m.get("asn1c_out") or "")[-1200:], "build_log": (m.get("build_log") or "")[-1200:]})
     subs = [Rng(wrng.next()) for _ in built]
-    nvals = 10 if tier == "quick" else 16
+    nvals = 12 if tier == "quick" else 16
     with ThreadPoolExecutor(max_workers=8) as ex:
         results = list(ex.map(lambda a: wide_one(a[0], a[1], nvals), zip(built, subs)))
     for m, (stats, res, cases, first) in zip(built, results):
@@ -197,8 +198,10 @@ def main(tier):
         wmods = []
         if WIDE:
             wrng = Rng(rng.next())
-            wmods = [widefind.boundary_module()] + widefind.generate(wrng, 12 if tier == "quick" else 60, 5)
+            wmods = [widefind.boundary_module()] + widefind.generate(wrng, 14 if tier == "quick" else 60, 5)
+            t0 = time.time()
             build_modules(wmods, tag="wide", moddrv_extra=widefind.EXTRA)
+            TIMES["wide_build_s"] = round(time.time() - t0, 1)
     except BuildError as e:
         run.violation("build", {"what": str(e)[-2500:]}, no_input=True)
         return run.finish("proof", (nthm, ndis))
@@ -282,13 +285,15 @@ def main(tier):
         if cs:
             run.sample({"type": cs[0]["ts"], "value": cs[0]["vs"][:80], "rt": "rt %s der %s" % (cs[0]["tn"], cs[0]["der"][:60])})
     # ------------------------------------------------------------ wide layer
+    t0 = time.time()
     wide_layer(run, wmods, wrng if wmods else rng, tier)
+    TIMES["wide_run_s"] = round(time.time() - t0, 1)
     tb = ["Coq 8.16.1 kernel; vm_compute for the Example", "axioms under Print Assumptions: " + (", ".join(sorted(axioms)) or "none (Closed under the global context)"),
           "extraction: ExtrOcamlBasic only; OCaml 4.13.1", "lib/modgen.py (generator, independent X.680 tagging), lib/widefind.py (wide generator, classifier predicates of the known findings), harness/moddrv.c + harness/moddrv_wide.inc (the rt/wrt battery is the property evaluated in C; deep constraint walk; value-level facts), gcc + ASan/UBSan",
           "values of the wide layer come from the library's own asn_random_fill"]
     return run.finish("proof", (nthm, ndis), trusted_base=tb,
                       checker_cmd="make -C /verif all && coqc -Q coq A1 coq/Props/Properties_C01.v",
-                      extra_cov={"theorems": names, "modules": len(mods), "wide_modules": len(wmods),
+                      extra_cov={"theorems": names, "modules": len(mods), "wide_modules": len(wmods), "wide_times": TIMES,
                                  "rule": "one case = one driver command (round-trip battery over 5 syntaxes, decoder on model bytes, or one transcoding chain); distinct command lines",
                                  "traces_validated_against_impl": run.cov["evaluations"]},
                       assumptions=["theorems cover DER/BER of the modelled algebra; UPER/OER/XER round trips and all types outside the algebra are covered by the tie only (partial)",
